@@ -31,7 +31,8 @@ class OriginalLocation:
         if path_maker_type == PathMakerType.AbsolutePaths:
             return parent
         if path_maker_type == PathMakerType.RelativePaths:
-            if (parent == volume_top_dir) or parent.startswith(
-                    volume_top_dir + os.path.sep):
-                parent = parent[len(volume_top_dir + os.path.sep):]
+            # the top directory '/' already ends with the separator
+            prefix = volume_top_dir.rstrip(os.path.sep) + os.path.sep
+            if (parent == volume_top_dir) or parent.startswith(prefix):
+                parent = parent[len(prefix):]
             return parent
